@@ -66,7 +66,40 @@ def keyfn_of(spec):
         return lambda k: c
     if fn == "rev":
         return lambda k: k[::-1]
+    if fn == "table":                     # a lookup table used as the key function: KeyError for a missing name
+        return dict((a, b) for a, b in spec["map"]).__getitem__
+    if fn in ("raise_on", "unhash_on"):
+        base = keyfn_of(spec.get("base")) or (lambda k: k)
+        names = set(spec["names"])
+        if fn == "raise_on":              # rejects some field names with the given exception
+            exc = EXC[spec["exc"]]
+
+            def f(k):
+                if k in names:
+                    raise exc(k)
+                return base(k)
+        else:                             # returns an unhashable key (a list) for some field names
+            def f(k):
+                return [base(k)] if k in names else base(k)
+        return f
     raise AssertionError(fn)
+
+
+EXC = {"KeyError": KeyError, "TypeError": TypeError, "ValueError": ValueError, "AttributeError": AttributeError}
+
+# include / omit / rename in forms that make keyslice_pairs (or set_by_object's own preparation) raise, and
+# the exception class Python's set() / dict() / tuple unpacking raise for them
+MALFORMED = {
+    "include": {"unhashable-member": "TypeError", "non-iterable": "TypeError"},
+    "omit": {"unhashable-member": "TypeError", "non-iterable": "TypeError"},
+    "rename": {"triple": "ValueError", "single": "ValueError", "str3": "ValueError",
+               "unhashable-source": "TypeError", "non-iterable": "TypeError"},
+}
+
+
+def malformed_value(m):
+    return {"unhashable-member": ["a", ["b"]], "non-iterable": 7, "triple": [("a", "b", "c")], "single": [("a",)],
+            "str3": ["abc"], "unhashable-source": [(["a"], "b")]}[m["form"]]
 
 
 def rename_arg(spec):
@@ -134,38 +167,67 @@ def build_element(case):
 
 class _ObjBox:
     """A Python object built from the case: plain attributes, property-backed attributes
-    (getter raises AttributeError while nothing is stored), and a log of every attribute read."""
+    (getter raises AttributeError while nothing is stored, or another exception when the case says
+    `raises`), and a log of every attribute read.  `mode` makes some `setattr` calls fail:
+    read-only properties, a class with `__slots__`, or a `__setattr__` that rejects some names."""
 
-    def __init__(self, spec):
+    def __init__(self, spec, mode=None):
         store = {}
         log = []
         ns = {}
-        for a in spec:
-            if a.get("prop"):
-                def getter(self, n=a["name"]):
+        mode = mode or {}
+        kind = mode.get("kind")
+        ro = set(mode.get("names", [])) if kind == "roprop" else set()
+        by_name = {a["name"]: a for a in spec}
+        for n in list(by_name) + [n for n in sorted(ro) if n not in by_name]:
+            a = by_name.get(n)
+            if (a and a.get("prop")) or n in ro:
+                def getter(self, n=n, raises=(a or {}).get("raises")):
+                    if raises:
+                        raise EXC[raises](n)
                     if n not in store:
                         raise AttributeError(n)
                     return store[n]
 
-                def setter(self, v, n=a["name"]):
+                def setter(self, v, n=n):
                     store[n] = v
-                ns[a["name"]] = property(getter, setter)
-                if a["present"]:
-                    store[a["name"]] = nat_to_py(a["value"])
+                ns[n] = property(getter) if n in ro else property(getter, setter)
+                if a and a["present"] and not a.get("raises"):
+                    store[n] = nat_to_py(a["value"])
 
         def __getattribute__(self, n):
             log.append(n)
             return object.__getattribute__(self, n)
         ns["__getattribute__"] = __getattribute__
+        self.slots = None
+        if kind == "slots":
+            self.slots = tuple(mode["allowed"])
+            ns["__slots__"] = self.slots
+        if kind == "setattr":
+            deny, exc = set(mode["names"]), EXC[mode["exc"]]
+
+            def __setattr__(self, n, v):
+                if n in deny:
+                    raise exc(n)
+                object.__setattr__(self, n, v)
+            ns["__setattr__"] = __setattr__
         cls = type("CaseObject", (object,), ns)
         self.obj = cls()
         for a in spec:
-            if not a.get("prop") and a["present"]:
+            if a["name"] not in ns and a["present"]:
                 object.__setattr__(self.obj, a["name"], nat_to_py(a["value"]))
         self.store = store
         self.log = log
 
     def snapshot(self):
+        if self.slots is not None:
+            d = {}
+            for n in self.slots:
+                try:
+                    d[n] = object.__getattribute__(self.obj, n)
+                except AttributeError:
+                    pass
+            return d
         d = dict(object.__getattribute__(self.obj, "__dict__"))
         assert not (set(d) & set(self.store))
         d.update(self.store)
@@ -173,6 +235,18 @@ class _ObjBox:
 
     def canon(self):
         return [[k, py_to_nat(v)] for k, v in sorted(self.snapshot().items())]
+
+
+def ref_rejects(case, name):
+    """Exception class name `setattr(obj, name, ...)` raises on the case's object, else None."""
+    m = case.get("objmode")
+    if not m:
+        return None
+    if m["kind"] == "roprop":
+        return "AttributeError" if name in m["names"] else None
+    if m["kind"] == "slots":
+        return None if name in m["allowed"] else "AttributeError"
+    return m["exc"] if name in m["names"] else None
 
 
 def _kwargs(case, with_key, args=None):
@@ -185,6 +259,8 @@ def _kwargs(case, with_key, args=None):
         kw["rename"] = rename_arg(a["rename"])
     if with_key and a.get("key") is not None:
         kw["key"] = keyfn_of(a["key"])
+    if args is None and case.get("malformed"):
+        kw[case["malformed"]["arg"]] = malformed_value(case["malformed"])
     return kw
 
 
@@ -216,13 +292,56 @@ def ref_outkey(k, include, omit, rmap):
     return k
 
 
-def ref_slice(names_values, include, omit, rmap, keyfn):
-    """names_values: {field name: native value}.  Returns 'TypeError' or the expected dict."""
-    if _truthy(include) and _truthy(omit):
+class RefErr(str):
+    """The selection fails; several fields may fail with different exception classes — which one is
+    met first depends on the iteration order, which the documentation leaves open: `alts`."""
+
+    def __new__(cls, classes):
+        self = str.__new__(cls, classes[0])
+        self.alts = set(classes)
+        return self
+
+
+def _is_err(exp, got):
+    return got in getattr(exp, "alts", {str(exp)})
+
+
+def ref_keyed(keyspec, name):
+    """What the key function does with one field name: (True, key) or (False, exception class name).
+    A key that cannot be hashed cannot be looked up in include / omit / rename nor stored in the
+    resulting dict: TypeError."""
+    fn = keyfn_of(keyspec)
+    if fn is None:
+        return True, name
+    try:
+        k = fn(name)
+    except Exception as e:  # noqa: BLE001
+        return False, type(e).__name__
+    try:
+        hash(k)
+    except TypeError:
+        return False, "TypeError"
+    return True, k
+
+
+def ref_slice(names_values, include, omit, rmap, keyspec, malformed=None):
+    """names_values: {field name: native value}.  Returns the expected dict, or the name of the
+    exception class when the selection cannot be computed: both include and omit supplied, an
+    argument in a form that cannot be used, or a key function that fails for one of the fields
+    (every field is keyed, selected or not: the key function is applied first)."""
+    supplied = {"include": _truthy(include), "omit": _truthy(omit)}
+    if malformed:
+        supplied[malformed["arg"]] = True
+    if supplied["include"] and supplied["omit"]:
         return "TypeError"
+    if malformed:
+        return MALFORMED[malformed["arg"]][malformed["form"]]
     sources = {}
-    for name in names_values:
-        k = keyfn(name) if keyfn else name
+    failing = [k for ok, k in (ref_keyed(keyspec, name) for name in sorted(names_values)) if not ok]
+    if failing:
+        return RefErr(failing)
+    for name in sorted(names_values):
+        ok, k = ref_keyed(keyspec, name)
         out = ref_outkey(k, include, omit, rmap)
         if out is not None:
             sources.setdefault(out, []).append(name)
@@ -243,7 +362,7 @@ def ref_read_set(fields, omit, rmap):
 class C20(Property):
     id = "C20"
     title = "Dict.slice / update_object / set_by_object move exactly the selected fields"
-    proof_module = "Proofs.C20"
+    proof_module = "Proofs.C20Fail"      # top of the chain C20 <- C20Fail
     theorems = [
         "Flatland.C20.Proofs.slice_spec",
         "Flatland.C20.Proofs.slice_keys",
@@ -257,6 +376,19 @@ class C20(Property):
         "Flatland.C20.Proofs.object_roundtrip_final",
         "Flatland.C20.Proofs.object_roundtrip",
         "Flatland.C20.Proofs.object_roundtrip_sparse",
+        # failure and recovery paths (Proofs/C20Fail.lean)
+        "Flatland.C20.Proofs.sliceP_refines",
+        "Flatland.C20.Proofs.updateObjectP_refines",
+        "Flatland.C20.Proofs.setByObjectP_refines",
+        "Flatland.C20.Proofs.sliceP_ok_iff",
+        "Flatland.C20.Proofs.update_object_atomic_on_selection_error",
+        "Flatland.C20.Proofs.update_object_atomic",
+        "Flatland.C20.Proofs.updateObjectP_atomic",
+        "Flatland.C20.Proofs.lazyUpdate_fails",
+        "Flatland.C20.Proofs.writeAll_split",
+        "Flatland.C20.Proofs.update_object_setattr_error",
+        "Flatland.C20.Proofs.set_by_object_read_error_keeps_element",
+        "Flatland.C20.Proofs.set_by_object_setup_error",
     ]
     level_text = "proof"
     level_note = ("slice_spec / include_omit_exclusive / update_object_frame / set_by_object_reads (C20_full_holds) / set_by_object_values are "
@@ -267,13 +399,26 @@ class C20(Property):
                   "non-strict policy; read back with rename^-1 and no include/omit. Outside these hypotheses the oracle checks only the two "
                   "halves (update_object writes the slice, set_by_object stores the winners), not the composed law. In the model `reads` is the "
                   "candidate list (the code calls hasattr on every candidate); spec outKey restates the three documented rules and is close to "
-                  "the code by nature; member.set() is a parameter (C04)")
+                  "the code by nature; member.set() is a parameter (C04). FAILURE PATHS (h10): the model carries key functions that raise / return "
+                  "unhashable keys, unusable include/omit/rename, objects rejecting a setattr and attribute reads that raise (…P functions, proved equal "
+                  "to the total ones when nothing raises: sliceP_refines, updateObjectP_refines, setByObjectP_refines); proved for all inputs: "
+                  "sliceP_ok_iff (a slice exists iff the arguments are usable and the key function accepts EVERY field), "
+                  "update_object_atomic_on_selection_error / update_object_atomic (no slice -> the object is untouched), lazyUpdate_fails (the "
+                  "interleaved select-one-write-one variant violates it), update_object_setattr_error + writeAll_split (a rejected setattr: frame, "
+                  "rejected attribute unchanged, every selected attribute old-or-new, writes = the prefix of the slice before the first rejected name), "
+                  "set_by_object_read_error_keeps_element / set_by_object_setup_error (a raising read or unusable argument leaves the element as it was). "
+                  "The oracle states (a) atomicity on a selection error, (b) for a rejected setattr only what the text determines, (c) element untouched "
+                  "after a raising read, and judges a second, narrower call against the state the first one left")
     technique = "Lean 4 theorems about a hand-written model + differential correspondence with /repo + Python oracle of spec B"
     trusted_base = [
-        "Python objects modelled as attribute stores (plain attributes and properties whose getter returns or raises AttributeError); "
-        "getters raising other exceptions, __slots__, read-only properties are not modelled",
-        "key functions are arbitrary total functions Str -> Str in the theorems; the correspondence runs a fixed family "
-        "(identity, ASCII upper, prefix add/strip, constant, reverse)",
+        "Python objects modelled as attribute stores (plain attributes and properties whose getter returns, raises AttributeError or raises "
+        "another exception) plus a function telling which setattr the object rejects and with what (read-only property, __slots__, __setattr__); "
+        "objects whose setattr has other side effects (setters touching other attributes, observable double assignment) are not modelled",
+        "key functions are arbitrary functions Str -> (Str or exception) in the theorems; an unhashable result is modelled as TypeError at that "
+        "field (raised by `key in rename/include/omit` or by dict(sliced), all inside slice()); the correspondence runs a fixed family "
+        "(identity, ASCII upper, prefix add/strip, constant, reverse, partial lookup table, raise-on-names, unhashable-on-names)",
+        "exception classes of unusable arguments (set() of an unhashable member / a non-iterable: TypeError; dict() of a pair that does not "
+        "unpack: ValueError) are Python built-in behaviour, tabulated in MALFORMED and in Run/C20.lean parseSetup",
         "member.set(x).value is a parameter of the model (setF); the runner instantiates it with the scalar model of C04 "
         "(String, Integer, Boolean, Date, Time, DateTime, Enum members; None/str/int/bool/float/Decimal/date/time/datetime values)",
         "Python's sorted() on distinct str keys = insertion sort by code point; dict insertion/overwrite semantics",
@@ -281,17 +426,29 @@ class C20(Property):
     assumptions = [
         "field names, include/omit members, rename keys and values are str; rename is a dict or a list of 2-tuples",
         "Dict and SparseDict(minimum_fields=None); members are scalars",
+        "left open by the text, therefore not asserted by the oracle (the correspondence with the model still pins the code's behaviour): when a "
+        "setattr raises, WHICH of the other selected attributes are already written (the code writes in dict order of the slice = sorted field "
+        "order, and stops at the first rejected name); when several fields / reads fail with different exception classes, which class comes out "
+        "(the first in sorted order); the exception class for unusable include/omit/rename forms",
+        "a strict-policy rejection inside set_by_object (self.set(final) raises after its reset) is not a 'read that raises': the element is "
+        "reset there, as modelled since g6 (dictSetValue); clause (c) is about exceptions raised before self.set is reached",
     ]
     rule = ("Dict schemas of 1-5 fields (70% String/String(strip=False)/Integer, 30% Boolean/Date/Time/DateTime/unsigned %04i Integer/Enum) with names from a pool (ASCII, case variants, "
             "prefix-related, non-ASCII), member values None/str/int/bool incl. padded and unadaptable (rich kinds: kind-appropriate texts, floats, Decimals, native dates/times); op in slice/update_object/"
             "set_by_object/roundtrip; include/omit each None, [] or 1-3 names (known, unknown, overlapping rename; 8% both -> TypeError); "
             "rename None/{}/dict/list/tuple/generator of pairs/keys()-only mapping with sources and targets from fields+pool (collisions, chains, duplicate sources at low rate); "
             "key function None or one of 7; objects with plain/property-backed/raising/absent attributes; policy subset/strict/duck; 15% SparseDict with each member "
-            "present with probability 0.6. "
+            "present with probability 0.6. FAILURE STREAM (30% of slice/update/setby cases): key function = lookup table without an entry for the "
+            "first/middle/last field in sorted order (KeyError), raise-on-names (TypeError/ValueError/KeyError/AttributeError), unhashable-key-on-names, "
+            "each optionally over upper / prefix-add and combined with rename/include/omit; include/omit/rename in unusable forms (unhashable member, "
+            "non-iterable, 3-tuples, 1-tuples, 3-char strings, unhashable source); objects rejecting the setattr of the first/middle/last attribute "
+            "the call writes (read-only property, __slots__ without the name, __setattr__ raising AttributeError/ValueError/TypeError) or of an "
+            "unrelated name; for set_by_object properties whose getter raises ValueError/TypeError/KeyError at the first/middle/last candidate; "
+            "60% followed by a second, narrower call on the same object / element (recovery). "
             "non-trivial = no exception and at least one of include/omit/rename/key supplied and a non-empty selection")
     exhaustive_note = ("fields {a:str, b:int}; include, omit in {None, [], [a], [b], [a,b], [zz]}; rename in {None, a->b, a->z, z->a, "
                        "swap a<->b, chain z->a,y->z}; op in slice/update/setby; key in {None, upper} for slice/update")
-    quick_n = 100000
+    quick_n = 80000
     thorough_n = 600000
 
     # ------------------------------------------------------------ cases
@@ -332,6 +489,37 @@ class C20(Property):
             {"op": "roundtrip", "fields": f, "policy": "subset", "include": ["a"], "omit": None,
              "rename": {"as": "dict", "pairs": [["b", "bee"]]}, "key": None, "obj": [],
              "args2": {"include": None, "omit": None, "rename": {"as": "dict", "pairs": [["bee", "b"]]}}},
+        ] + self._failure_corpus()
+
+    def _failure_corpus(self):
+        """Witnesses of seeded/C20-update-object-lazy-pairs (update_object iterating the lazy keyslice_pairs) and
+        one case per failure kind."""
+        f3 = [{"name": "city", "kind": "str", "value": {"s": "Oslo"}}, {"name": "name", "kind": "str", "value": {"s": "Ann"}},
+              {"name": "zip", "kind": "str", "value": {"s": "0150"}}]
+        rec = [{"name": "town", "prop": False, "present": True, "value": {"s": "Bergen"}},
+               {"name": "note", "prop": False, "present": True, "value": {"s": "keep me"}}]
+        base = {"op": "update", "fields": f3, "policy": "subset", "include": None, "omit": None, "rename": None, "key": None, "obj": rec}
+        zip_only = {"include": ["zip"], "omit": None, "rename": {"as": "dict", "pairs": [["zip", "postcode"]]}, "key": None}
+        return [
+            # the demo: a field-name -> attribute-name table with no entry for the field that sorts last; then a narrower call
+            dict(base, key={"fn": "table", "map": [["city", "town"], ["name", "full_name"]]}, then=zip_only),
+            # an unhashable transformed key together with rename (TypeError from `key in rename`) on the middle field
+            dict(base, key={"fn": "unhash_on", "names": ["name"], "base": None}, rename={"as": "dict", "pairs": [["city", "town"]]},
+                 then=zip_only),
+            dict(base, key={"fn": "raise_on", "names": ["zip"], "exc": "ValueError", "base": {"fn": "upper"}}),
+            dict(base, op="slice", obj=[], key={"fn": "table", "map": [["city", "town"]]}),
+            dict(base, malformed={"arg": "rename", "form": "triple"}),
+            dict(base, malformed={"arg": "include", "form": "unhashable-member"}, omit=["zip"]),
+            # a setattr the object rejects: first / middle / last attribute written
+            dict(base, objmode={"kind": "roprop", "names": ["city"]}, then=zip_only),
+            dict(base, objmode={"kind": "setattr", "names": ["name"], "exc": "ValueError"}, then=zip_only),
+            dict(base, objmode={"kind": "slots", "allowed": ["town", "note", "city", "name", "postcode"]}, then=zip_only),
+            # set_by_object: the getter of the middle candidate raises; then the same call without it
+            dict(base, op="setby", obj=[{"name": "city", "prop": False, "present": True, "value": {"s": "Rome"}},
+                                        {"name": "name", "prop": True, "present": False, "value": None, "raises": "ValueError"},
+                                        {"name": "zip", "prop": False, "present": True, "value": {"s": "00100"}}],
+                 then={"include": None, "omit": ["name"], "rename": None, "key": None}),
+            dict(base, op="setby", malformed={"arg": "rename", "form": "str3"}),
         ]
 
     def exhaustive(self, tier):
@@ -436,6 +624,9 @@ class C20(Property):
             if op == "roundtrip":
                 yield self._gen_roundtrip(rng, case, names)
                 continue
+            if rng.random() < 0.3:
+                yield self._gen_failure(rng, case, names)
+                continue
             ren = self._rand_rename(rng, names, op == "setby")
             rsrc = [p[0] for p in ren["pairs"]] if ren else []
             inc = self._rand_sel(rng, names, rsrc)
@@ -450,6 +641,104 @@ class C20(Property):
             attr_names = list(dict.fromkeys(names + rsrc + rng.sample(NAME_POOL, 3)))
             case["obj"] = self._rand_obj(rng, attr_names) if op != "slice" else []
             yield case
+
+    def _pick_at(self, rng, ordered):
+        """an element of `ordered` at the first / a middle / the last position"""
+        pos = rng.choice(["first", "middle", "last"])
+        if pos == "first" or len(ordered) == 1:
+            return ordered[0]
+        if pos == "last" or len(ordered) == 2:
+            return ordered[-1]
+        return ordered[rng.randint(1, len(ordered) - 2)]
+
+    def _gen_failure(self, rng, case, names):
+        """Failure and recovery paths: key functions that raise / return unhashable keys for some field
+        names, malformed include / omit / rename, objects that reject a setattr (read-only property,
+        __slots__, __setattr__) or whose attribute reads raise; then (60%) a second, narrower call."""
+        op = rng.choice(["update", "update", "update", "setby", "setby", "slice"])
+        case["op"] = op
+        srt = sorted(names)
+        ren = self._rand_rename(rng, names, op == "setby") if rng.random() < 0.6 else None
+        rsrc = [p[0] for p in ren["pairs"]] if ren else []
+        inc = om = None
+        r = rng.random()
+        if r < 0.3:
+            inc = self._rand_sel(rng, names, rsrc)
+        elif r < 0.6:
+            om = self._rand_sel(rng, names, rsrc)
+        case.update({"include": inc, "omit": om, "rename": ren, "key": None})
+        ident_names = [n for n in NAME_POOL if n.isidentifier()]
+        attr_names = list(dict.fromkeys(names + rsrc + rng.sample(NAME_POOL, 3)))
+        case["obj"] = self._rand_obj(rng, attr_names) if op != "slice" else []
+        kinds = []
+        if op in ("update", "slice"):
+            kinds = rng.choice([["key"], ["key"], ["key"], ["malformed"], ["objmode"], ["objmode"], ["key", "objmode"], []])
+            if op == "slice":
+                kinds = [k for k in kinds if k != "objmode"] or ["key"]
+        else:
+            kinds = rng.choice([["read"], ["read"], ["read"], ["malformed"], []])
+        if "key" in kinds:
+            base = rng.choice([None, None, {"fn": "upper"}, {"fn": "add", "p": "x_"}])
+            k = rng.random()
+            bad = list({self._pick_at(rng, srt) for _ in range(rng.choice([1, 1, 2]))})
+            if k < 0.4:       # a lookup table with no entry for some field names (and some entries for non-fields)
+                fn = keyfn_of(base) or (lambda x: x)
+                table = [[n, rng.choice([fn(n), fn(n), rng.choice(NAME_POOL)])] for n in names if n not in bad]
+                table += [[rng.choice(NAME_POOL), "q"]] if rng.random() < 0.3 else []
+                case["key"] = {"fn": "table", "map": [p for p in table if p[0] not in bad]}
+            elif k < 0.7:
+                case["key"] = {"fn": "raise_on", "names": bad + ([rng.choice(NAME_POOL)] if rng.random() < 0.3 else []),
+                               "exc": rng.choice(["TypeError", "ValueError", "KeyError", "AttributeError"]), "base": base}
+            else:
+                case["key"] = {"fn": "unhash_on", "names": bad, "base": base}
+        if "malformed" in kinds:
+            arg = rng.choice(["include", "omit", "rename"])
+            case["malformed"] = {"arg": arg, "form": rng.choice(sorted(MALFORMED[arg]))}
+            case[arg] = None
+        if "read" in kinds:
+            # a property whose getter raises something else than AttributeError, at a first / middle / last candidate
+            cands = sorted(ref_read_set(names, om, rename_map(ren))) or srt
+            for n in {self._pick_at(rng, cands) for _ in range(rng.choice([1, 1, 2]))} | ({rng.choice(NAME_POOL)} if rng.random() < 0.2 else set()):
+                case["obj"] = [a for a in case["obj"] if a["name"] != n]
+                case["obj"].append({"name": n, "prop": True, "present": False, "value": None,
+                                    "raises": rng.choice(["ValueError", "TypeError", "KeyError"])})
+        if "objmode" in kinds:
+            # the attributes the call is going to write, in the order of the sorted fields
+            outs = []
+            for n in srt:
+                ok, k = ref_keyed(case["key"], n)
+                o = ref_outkey(k, inc, om, rename_map(ren)) if ok else None
+                if o is not None and o not in outs:
+                    outs.append(o)
+            targets = [self._pick_at(rng, outs)] if outs and rng.random() < 0.85 else []
+            if rng.random() < 0.25:
+                targets.append(rng.choice(NAME_POOL))
+            mk = rng.choice(["roprop", "slots", "setattr"])
+            if mk == "slots":
+                for a in case["obj"]:
+                    a["prop"] = False
+                case["obj"] = [a for a in case["obj"] if a["present"] and a["name"].isidentifier() and a["name"] not in targets]
+                allowed = [n for n in dict.fromkeys([a["name"] for a in case["obj"]] + outs + rng.sample(ident_names, 2))
+                           if n.isidentifier() and n not in targets]
+                case["objmode"] = {"kind": "slots", "allowed": allowed}
+            elif mk == "roprop":
+                case["objmode"] = {"kind": "roprop", "names": targets}
+            else:
+                case["objmode"] = {"kind": "setattr", "names": targets, "exc": rng.choice(["AttributeError", "ValueError", "TypeError"])}
+        if rng.random() < 0.6 and op != "slice":
+            # recovery: a narrower second call (well-formed arguments, total key function)
+            t_inc = t_om = None
+            if rng.random() < 0.6:
+                t_inc = rng.sample(names, rng.randint(1, len(names)))
+            elif rng.random() < 0.5:
+                t_om = rng.sample(names, 1)
+            raisers = [a["name"] for a in case["obj"] if a.get("raises")]
+            if raisers and rng.random() < 0.7:          # leave the raising attributes out: the call can succeed now
+                t_inc, t_om = None, raisers + (t_om or [])
+            case["then"] = {"include": t_inc, "omit": t_om,
+                            "rename": self._rand_rename(rng, names, op == "setby") if rng.random() < 0.4 else None,
+                            "key": rng.choice([None, None, {"fn": "upper"}]) if op == "update" else None}
+        return case
 
     def _gen_roundtrip(self, rng, case, names):
         """Mostly cases inside the hypotheses of `object_roundtrip` (injective renaming onto fresh
@@ -493,19 +782,36 @@ class C20(Property):
             except Exception as e:  # noqa: BLE001 - the class name is the observation
                 exc, result = type(e).__name__, None
             return {"exc": exc, "result": result}
-        box = _ObjBox(case.get("obj", []))
+        box = _ObjBox(case.get("obj", []), case.get("objmode"))
         if op == "update":
             try:
                 el.update_object(box.obj, **_kwargs(case, True))
             except Exception as e:  # noqa: BLE001
                 exc = type(e).__name__
-            return {"exc": exc, "obj": box.canon()}
+            obs = {"exc": exc, "obj": box.canon()}
+            if case.get("then") is not None:        # recovery: a second call on the same object
+                exc2 = None
+                try:
+                    el.update_object(box.obj, **_kwargs(case, True, case["then"]))
+                except Exception as e:  # noqa: BLE001
+                    exc2 = type(e).__name__
+                obs.update({"exc2": exc2, "obj2": box.canon()})
+            return obs
         if op == "setby":
             try:
                 el.set_by_object(box.obj, **_kwargs(case, False))
             except Exception as e:  # noqa: BLE001
                 exc = type(e).__name__
-            return {"exc": exc, "reads": sorted(set(box.log)), "value": _value_list(el, case)}
+            obs = {"exc": exc, "reads": sorted(set(box.log)), "value": _value_list(el, case)}
+            if case.get("then") is not None:
+                del box.log[:]
+                exc2 = None
+                try:
+                    el.set_by_object(box.obj, **_kwargs(case, False, case["then"]))
+                except Exception as e:  # noqa: BLE001
+                    exc2 = type(e).__name__
+                obs.update({"exc2": exc2, "reads2": sorted(set(box.log)), "value2": _value_list(el, case)})
+            return obs
         if op == "roundtrip":
             try:
                 el.update_object(box.obj, **_kwargs(case, True))
@@ -522,6 +828,44 @@ class C20(Property):
 
     # ------------------------------------------------------------ oracle (spec B on the real code)
 
+    def _check_update(self, case, tag, before, after, exp, raised, fails):
+        """One update_object call: `exp` is the reference slice (or the exception class when there is
+        none), `before`/`after` the object's complete attribute state."""
+        if isinstance(exp, str):
+            # (a) no slice can be produced: nothing is selected, so nothing may be touched
+            if not _is_err(exp, raised):
+                fails.append({"clause": tag + "selection-error-raises", "expected": sorted(getattr(exp, "alts", {str(exp)})),
+                              "observed": raised})
+            if after != before:
+                fails.append({"clause": tag + "update-atomic-on-selection-error", "expected": _j(before), "observed": _j(after)})
+            return
+        rejected = {k: ref_rejects(case, k) for k in exp if ref_rejects(case, k)}
+        if rejected:
+            # (b) a setattr of a selected attribute fails.  Determined by the text: the call cannot complete
+            # (one of the failing setattr's exceptions comes out), attributes outside the selection are
+            # untouched, the rejecting attribute is unchanged, every other selected attribute holds its
+            # old value or the slice's value.  Left open: which of them are already written.
+            if raised not in set(rejected.values()):
+                fails.append({"clause": tag + "setattr-error-propagates", "expected": sorted(set(rejected.values())), "observed": raised})
+            for k in set(before) | set(after):
+                if k not in exp or k in rejected:
+                    if after.get(k, _MISSING) != before.get(k, _MISSING):
+                        fails.append({"clause": tag + ("update-frame" if k not in exp else "rejected-attribute-unchanged"), "attribute": k,
+                                      "expected": _j(before.get(k)), "observed": _j(after.get(k))})
+            for k in exp:
+                if k not in rejected and after.get(k, _MISSING) != before.get(k, _MISSING) and not _same(after.get(k, _MISSING), exp[k]):
+                    fails.append({"clause": tag + "update-writes", "attribute": k, "expected": _j(exp[k]), "observed": _j(after.get(k))})
+            return
+        if raised:
+            fails.append({"clause": tag + "update-raises", "expected": None, "observed": raised})
+            return
+        want = dict(before)
+        want.update(exp)
+        if after != want or any(type(after[k]) is not type(want[k]) for k in want):
+            clause = "update-frame" if any(after.get(k, _MISSING) != before.get(k, _MISSING)
+                                           for k in set(after) | set(before) if k not in exp) else "update-writes"
+            fails.append({"clause": tag + clause, "expected": _j(want), "observed": _j(after)})
+
     def oracle(self, case):
         fails = []
         el = build_element(case)
@@ -531,22 +875,21 @@ class C20(Property):
         fields = [f["name"] for f in case["fields"]]        # the DECLARED fields
         inc, om = case.get("include"), case.get("omit")
         rmap = rename_map(case.get("rename"))
-        keyfn = keyfn_of(case.get("key"))
-        exp = ref_slice(values, inc, om, rmap, keyfn)
+        exp = ref_slice(values, inc, om, rmap, case.get("key"), case.get("malformed"))
 
         if op == "slice":
             try:
                 got = el.slice(**_kwargs(case, True))
             except Exception as e:  # noqa: BLE001
                 got = type(e).__name__
-            if exp == "TypeError" or isinstance(got, str):
-                if got != exp:
-                    fails.append({"clause": "include-omit-exclusive", "expected": _j(exp), "observed": _j(got)})
+            if isinstance(exp, str) or isinstance(got, str):
+                if not _is_err(exp, got):
+                    fails.append({"clause": "include-omit-exclusive" if (inc and om) else "slice-error", "expected": _j(exp), "observed": _j(got)})
             elif got != exp or any(type(got[k]) is not type(exp[k]) for k in exp):
                 fails.append({"clause": "slice-selection", "expected": _j(exp), "observed": _j(got)})
             return fails
 
-        box = _ObjBox(case.get("obj", []))
+        box = _ObjBox(case.get("obj", []), case.get("objmode"))
         before = box.snapshot()
         if op in ("update", "roundtrip"):
             try:
@@ -555,19 +898,18 @@ class C20(Property):
             except Exception as e:  # noqa: BLE001
                 raised = type(e).__name__
             after = box.snapshot()
-            if exp == "TypeError" or raised:
-                if raised != (exp if exp == "TypeError" else None):
-                    fails.append({"clause": "include-omit-exclusive", "expected": _j(exp), "observed": raised})
-                if after != before:
-                    fails.append({"clause": "update-frame", "expected": _j(before), "observed": _j(after)})
-                return fails
-            want = dict(before)
-            want.update(exp)
-            if after != want or any(type(after[k]) is not type(want[k]) for k in want):
-                clause = "update-frame" if any(after.get(k, _MISSING) != before.get(k, _MISSING)
-                                               for k in set(after) | set(before) if k not in exp) else "update-writes"
-                fails.append({"clause": clause, "expected": _j(want), "observed": _j(after)})
-            if op == "update":
+            self._check_update(case, "", before, after, exp, raised, fails)
+            if op == "update" and case.get("then") is not None:
+                # recovery: the second call is judged against the state the first one left
+                t = case["then"]
+                exp2 = ref_slice(values, t.get("include"), t.get("omit"), rename_map(t.get("rename")), t.get("key"))
+                try:
+                    el.update_object(box.obj, **_kwargs(case, True, t))
+                    raised2 = None
+                except Exception as e:  # noqa: BLE001
+                    raised2 = type(e).__name__
+                self._check_update(case, "then-", after, box.snapshot(), exp2, raised2, fails)
+            if op == "update" or isinstance(exp, str) or raised:
                 return fails
             # ---- consequence: read back with the inverse renaming
             a2 = case["args2"]
@@ -599,27 +941,53 @@ class C20(Property):
             return fails
 
         # ---- set_by_object
-        pre_values = dict(values)
+        go_on = self._check_setby(case, "", el, box, before, fields, kinds, case, case.get("malformed"), fails)
+        if case.get("then") is not None and go_on:
+            del box.log[:]
+            self._check_setby(case, "then-", el, box, before, fields, kinds, case["then"], None, fails)
+        return fails
+
+    def _check_setby(self, case, tag, el, box, before, fields, kinds, args, malformed, fails):
+        """One set_by_object call with `args` on element `el` (in whatever state it is).  Returns False when
+        the element's state afterwards is not determined by the text (a strict-policy rejection)."""
+        inc, om = args.get("include"), args.get("omit")
+        rmap = rename_map(args.get("rename"))
+        pre_values = {f: el[f].value for f in fields if f in el}
         try:
-            el.set_by_object(box.obj, **_kwargs(case, False))
+            el.set_by_object(box.obj, **_kwargs(case, False, None if args is case else args))
             raised = None
         except Exception as e:  # noqa: BLE001
             raised = type(e).__name__
         reads = set(box.log)
+        now = {f: el[f].value for f in fields if f in el}
         if box.snapshot() != before:
-            fails.append({"clause": "setby-object-untouched", "expected": _j(before), "observed": _j(box.snapshot())})
-        if inc and om:
-            if raised != "TypeError":
-                fails.append({"clause": "include-omit-exclusive", "expected": "TypeError", "observed": raised})
+            fails.append({"clause": tag + "setby-object-untouched", "expected": _j(before), "observed": _j(box.snapshot())})
+        if malformed or (inc and om):
+            want_exc = "TypeError"
+            if malformed and malformed["arg"] == "rename":
+                want_exc = MALFORMED["rename"][malformed["form"]]
+            if raised != want_exc:
+                fails.append({"clause": tag + ("include-omit-exclusive" if not malformed else "setby-malformed-raises"),
+                              "expected": want_exc, "observed": raised})
             if reads:
-                fails.append({"clause": "reads", "expected": [], "observed": sorted(reads)})
-            now = {f: el[f].value for f in fields if f in el}
+                fails.append({"clause": tag + "reads", "expected": [], "observed": sorted(reads)})
             if now != pre_values:
-                fails.append({"clause": "setby-failed-call-leaves-element", "expected": _j(pre_values), "observed": _j(now)})
-            return fails
+                fails.append({"clause": tag + "setby-failed-call-leaves-element", "expected": _j(pre_values), "observed": _j(now)})
+            return True
         want_reads = ref_read_set(fields, om, rmap)
+        raisers = {a["name"]: a["raises"] for a in case.get("obj", []) if a.get("raises") and a["name"] in want_reads}
+        if raisers:
+            # (c) reading one of the attributes that map to declared fields raises: the exception comes out, the
+            # element is as it was, only attributes of the read set were looked at (which ones: order-dependent)
+            if raised not in set(raisers.values()):
+                fails.append({"clause": tag + "setby-read-error-propagates", "expected": sorted(set(raisers.values())), "observed": raised})
+            if now != pre_values or any(type(now[f]) is not type(pre_values[f]) for f in now):
+                fails.append({"clause": tag + "setby-read-error-leaves-element", "expected": _j(pre_values), "observed": _j(now)})
+            if not reads <= want_reads:
+                fails.append({"clause": tag + "reads", "expected": sorted(want_reads), "observed": sorted(reads)})
+            return True
         if reads != want_reads:
-            fails.append({"clause": "reads", "expected": sorted(want_reads), "observed": sorted(reads)})
+            fails.append({"clause": tag + "reads", "expected": sorted(want_reads), "observed": sorted(reads)})
         # values: each field gets the value of the attribute that maps to it (greatest attribute
         # name wins when several do), through member.set(); all other fields are unset
         sources = {}
@@ -632,17 +1000,17 @@ class C20(Property):
         strict_missing = case.get("policy") == "strict" and set(sources) != set(fields)
         if strict_missing:
             if raised != "TypeError":
-                fails.append({"clause": "strict-policy", "expected": "TypeError", "observed": raised})
-            return fails
+                fails.append({"clause": tag + "strict-policy", "expected": "TypeError", "observed": raised})
+            return False
         if raised:
-            fails.append({"clause": "setby-raises", "expected": None, "observed": raised})
-            return fails
+            fails.append({"clause": tag + "setby-raises", "expected": None, "observed": raised})
+            return False
         for f in fields:
             want_v = _member_value(kinds[f], before[sources[f]]) if f in sources else None
             got_v = _val(el, f)
             if got_v != want_v or type(got_v) is not type(want_v):
-                fails.append({"clause": "setby-values", "field": f, "expected": _j(want_v), "observed": _j(got_v)})
-        return fails
+                fails.append({"clause": tag + "setby-values", "field": f, "expected": _j(want_v), "observed": _j(got_v)})
+        return True
 
     # ------------------------------------------------------------ findings, coverage, shrinking
 
@@ -652,6 +1020,9 @@ class C20(Property):
         return None
 
     def nontrivial(self, case, obs):
+        if _failure_kinds(case):
+            # a failure-path case is non-trivial when the failure was reached, or a recovery call ran
+            return bool(obs.get("exc")) or "exc2" in obs
         if obs.get("exc"):
             return False
         supplied = any(case.get(k) for k in ("include", "omit", "key")) or bool(case.get("rename") and case["rename"]["pairs"])
@@ -701,9 +1072,41 @@ class C20(Property):
             t.append("obj-has-property")
         if any(a.get("prop") and not a["present"] for a in case.get("obj", [])):
             t.append("obj-has-raising-property")
+        fk = _failure_kinds(case)
+        for k in fk:
+            t.append("fail=" + k)
+        if fk:
+            t.append("fail-outcome=%s/%s" % (case["op"], obs.get("exc")))
+            if "exc2" in obs:
+                t.append("recovery=%s/%s-then-%s" % (case["op"], obs.get("exc"), obs.get("exc2")))
+            srt = sorted(f["name"] for f in case["fields"])
+            bad = [n for n in srt if not ref_keyed(case.get("key"), n)[0]] if case["op"] != "setby" else []
+            if bad:
+                i = srt.index(bad[0])
+                t.append("key-fails-at=%s" % ("only" if len(srt) == 1 else "first" if i == 0 else "last" if i == len(srt) - 1 else "middle"))
+            if case["op"] == "update" and case.get("objmode") and obs.get("exc") and not bad and not case.get("malformed"):
+                before = {a["name"] for a in case.get("obj", []) if a["present"]}
+                written = [k for k, _ in obs["obj"] if k not in before]
+                t.append("setattr-fails-after-new-attrs=%d" % min(len(written), 3))
+            if case["op"] == "setby" and obs.get("exc") and obs.get("reads"):
+                t.append("read-fails-after-reads=%d" % min(len(obs["reads"]) - 1, 3))
         return t
 
     def shrink_candidates(self, case):
+        for k in ("then", "objmode", "malformed"):
+            if case.get(k) is not None:
+                c = copy.deepcopy(case)
+                del c[k]
+                yield c
+        if case.get("key") and case["key"].get("base"):
+            c = copy.deepcopy(case)
+            c["key"]["base"] = None
+            yield c
+        for i, a in enumerate(case.get("obj", [])):
+            if a.get("raises"):
+                c = copy.deepcopy(case)
+                del c["obj"][i]["raises"]
+                yield c
         for i in range(len(case["fields"])):
             if len(case["fields"]) > 1:
                 c = copy.deepcopy(case)
@@ -758,7 +1161,25 @@ class C20(Property):
                 yield c
 
 
+def _failure_kinds(case):
+    out = []
+    k = case.get("key")
+    if k and k["fn"] in ("table", "raise_on", "unhash_on"):
+        out.append("key-" + k["fn"] + ("-" + k["exc"] if k["fn"] == "raise_on" else ""))
+    if case.get("malformed"):
+        out.append("malformed-%s-%s" % (case["malformed"]["arg"], case["malformed"]["form"]))
+    if case.get("objmode"):
+        out.append("setattr-" + case["objmode"]["kind"])
+    if any(a.get("raises") for a in case.get("obj", [])):
+        out.append("read-raises")
+    return out
+
+
 _MISSING = object()
+
+
+def _same(a, b):
+    return a is not _MISSING and a == b and type(a) is type(b)
 
 
 def _val(el, f):
